@@ -103,7 +103,41 @@ def check_vec(ctx, config, rule):
         okv = len(sq) == 1 and sq[0].args[0] == ('param', 2) and sq[0].args[1] == some(lenl) and len(el) == 1 and any(item_of_next(x) for x in subterms(el[0].args[1])) and len(en) == 1 \
             and len(itc) == 1 and full_view(itc[0].args[0], 1)
         C.check('Vec::serialize', 'serialize_seq(Some(len)), one serialize_element per element of the whole contents, end()', okv, '', b.get('span'))
-    ctx.floor(rule, C.n, 8, 'composition clauses for Vec trait impls')
+    # ---- collect_in / FromIteratorIn
+    for adt, label in (('vec::Vec', 'Vec'), ('boxed::Box', 'Box<[T]>'), ('string::String', 'String')):
+        for b in impls(db, adt, 'collect_in::FromIteratorIn', 'from_iter_in'):
+            I, r = arena.run_fn(ctx, b['id'], config)
+            fw = [e for e in own_calls(r) if (e.callee or '').endswith('::from_iter_in')]
+            C.check('FromIteratorIn for ' + label, 'forwards (iter, alloc) in order to the inherent from_iter_in and returns its result', len(fw) == 1 and fw[0].args == [('param', 1), ('param', 2)] and (r.ret == fw[0].ret or adt != 'vec::Vec'), '', b.get('span'))
+    ci = [b for b in db.fn_bodies() if b['id'].endswith('collect_in::CollectIn::collect_in')]
+    for b in ci:
+        I, r = arena.run_fn(ctx, b['id'], config)
+        fw = own_calls(r, trait='FromIteratorIn::from_iter_in')
+        C.check('CollectIn::collect_in', 'C::from_iter_in(self, alloc), result returned', len(fw) == 1 and fw[0].args == [('param', 1), ('param', 2)] and r.ret == fw[0].ret, '', b.get('span'))
+    rb = [b for b in db.fn_bodies() if b['kind'] == 'assoc_fn' and 'FromIteratorIn<std::result::Result<T, E>>>::from_iter_in' in b['id'].replace('core::', 'std::')]
+    for b in rb:
+        I, r = arena.run_fn(ctx, b['id'], config)
+        cc = own_calls(r, trait='CollectIn::collect_in')
+        alts = [t for t, _ in arena.alternatives(I, r.ret, set())] if r.ret is not None else []
+        okv = len(cc) == 1 and cc[0].args[1] == ('param', 2) and any(t[0] == 'agg' and t[2] == 'Ok' and field_of(t, '0') == cc[0].ret for t in alts) and any(t[0] == 'agg' and t[2] == 'Err' for t in alts) and len(alts) == 2
+        C.check('FromIteratorIn for Result', 'Ok(container collected from the Ok items) unless an Err item was seen, then that Err', okv, '', b.get('span'))
+        cl = [x for x in db.fn_bodies() if x['kind'] == 'closure' and x['id'].startswith(b['id'])]
+        okc = False
+        if cl:
+            I2, r2 = arena.run_fn(ctx, cl[0]['id'], config)
+            calts = [t for t, _ in arena.alternatives(I2, r2.ret, set())] if r2.ret is not None else []
+            somes = [t for t in calts if t[0] == 'agg' and t[2] == 'Some']
+            nones = [t for t in calts if t[0] == 'agg' and t[2] == 'None']
+            st = [e for e in r2.events if e.kind == 'store' and e.val[0] == 'agg' and e.val[2] == 'Some']
+            okc = len(somes) == 1 and 'as Ok' in show(somes[0]) and len(nones) >= 2 and len(st) == 1 and 'as Err' in show(st[0].val) and 'upvar' in show_lv(st[0].lv)
+        C.check('FromIteratorIn for Result', 'the adapter yields the Ok payloads, records the first Err and stops there', okc)
+    ob = [b for b in db.fn_bodies() if b['kind'] == 'assoc_fn' and 'FromIteratorIn<std::option::Option<T>>>::from_iter_in' in b['id'].replace('core::', 'std::')]
+    for b in ob:
+        I, r = arena.run_fn(ctx, b['id'], config)
+        cc = own_calls(r, trait='CollectIn::collect_in')
+        okc = own_calls(r, 'Result::<T, E>::ok')
+        C.check('FromIteratorIn for Option', 'collects ok_or(()) items as a Result and returns .ok() of it', len(cc) == 1 and cc[0].args[1] == ('param', 2) and len(okc) == 1 and okc[0].args[0] == cc[0].ret and r.ret == okc[0].ret, '', b.get('span'))
+    ctx.floor(rule, C.n, 15, 'composition clauses for Vec trait impls and collect_in')
 
 
 def check_string(ctx, config, rule):
